@@ -993,7 +993,11 @@ class World:
                         ent.states.pop(sorted(ent.states)[0])
                     elif how == 'add':
                         gone = sorted(x for x in m.context_states.handle_version_lookup
-                                      if m.context_states.handle.get_one(x, allow_none=True) is None)
+                                      if m.context_states.handle.get_one(x, allow_none=True) is None
+                                      and x not in ent.states)   # (an entity fetched earlier may still hold a deleted state)
+                        while (f'cs{self.new_n}' in m.context_states.handle_version_lookup or f'cs{self.new_n}' in ent.states
+                               or m.context_states.handle.get_one(f'cs{self.new_n}', allow_none=True) is not None):
+                            self.new_n += 1     # (replayed scripts carry handles of their own: never collide with them by accident)
                         st = ent.new_state(gone[n % len(gone)] if (gone and n % 5 < 2) else f'cs{self.new_n}')
                         self.new_n += 1
                         self.mutate_state(st, n)
@@ -1131,6 +1135,14 @@ class World:
                     mds = d.source_mds
                     d._source_mds = None  # noqa: SLF001
                     st.descriptor_container = None
+                    par = d.parent_handle
+                    if m.descriptions.handle.get_one(par, allow_none=True) is None and not (
+                            par in mgr.descriptor_updates and mgr.descriptor_updates[par].new is not None):
+                        # the parent is gone: add_descriptor cannot determine the source MDS and refuses the call before it looks
+                        # at the state (model: `addDescr` without MDS)
+                        self.emit(f'addDescr {H(d.Handle)} {H(par)} {kind_of(d)} {d.DescriptorVersion} {self.dbody(d)} - -', 'ok')
+                        mgr.add_descriptor(d, state_container=st)
+                        return
                     self.emit(f'writeEntity {H(d.Handle)} {H(d.parent_handle)} {kind_of(d)} {d.DescriptorVersion} {self.dbody(d)} {H(mds)}'
                               f' multi {self.show_c(st)}', 'ok')
                     mgr.add_descriptor(d, state_container=st)
